@@ -677,3 +677,15 @@ def _str_strip(ex, path, recv, ca, node):
 
 STR_METHODS["startswith"] = _str_startswith
 STR_METHODS["endswith"] = _str_endswith
+
+
+@builtin("super")
+def b_super(ex, path, ca, node):
+    """super() inside a method: the same object seen through its first base class."""
+    me = path.env.get("self")
+    if not isinstance(me, O) or ca.pos:
+        raise Unsupported("super() outside a modelled method")
+    m = class_model(me.cls)
+    if not m.bases:
+        raise Unsupported(f"super() in {me.cls}: no modelled base")
+    return [(path, O(me.e, m.bases[0]))]
